@@ -69,8 +69,8 @@ P("C05", ["COH", "CNT", "FIELDS", "SF1", "SF3", "SF5", "SF6", "ESC", "SF4", "RES
   "field agreement; the wrapper's own counting / caching rules are those of C15.",
   "bit-equality of the user's arithmetic between two calls (trusted: same call); determinism of user code",
   design="3/C05")
-P("C06", ["ORIENT", "FIELDS", "MEM", "OWN", "FDB", "BIND", "SFREAD", "UNITS", "MAXLEN", "RESTARTX", "BFGSFORM"],
-  "(RESTARTX) the continuation starts at exactly the checkpoint's point; (BFGSFORM) the limited-memory matrices are rebuilt from the restored history X, G alone, so nothing but the checkpoint determines the continuation; (MAXLEN) a history deque built with maxlen= is bounded by exactly maxcor + 1; (UNITS) values read back from a checkpoint are used in the unit they were stored in (writer/reader agreement on the scaling factor); (OWN) decoding a checkpoint does not write into it, (FDB) differencing options depend on the caller's arguments only, (BIND) the line search sees the global iteration number, (SFREAD) the solver reads no evaluation history of the wrapper, which a restart cannot reproduce; (ORIENT) orientation typing of the checkpoint decoder: increments accumulated from the newest pair backwards, "
+P("C06", ["ORIENT", "FIELDS", "MEM", "OWN", "FDB", "BIND", "SFREAD", "UNITS", "MAXLEN", "RESTARTX", "BFGSFORM", "REBUILD"],
+  "(REBUILD) a restart turns the restored history into matrices before its first iteration; (RESTARTX) the continuation starts at exactly the checkpoint's point; (BFGSFORM) the limited-memory matrices are rebuilt from the restored history X, G alone, so nothing but the checkpoint determines the continuation; (MAXLEN) a history deque built with maxlen= is bounded by exactly maxcor + 1; (UNITS) values read back from a checkpoint are used in the unit they were stored in (writer/reader agreement on the scaling factor); (OWN) decoding a checkpoint does not write into it, (FDB) differencing options depend on the caller's arguments only, (BIND) the line search sees the global iteration number, (SFREAD) the solver reads no evaluation history of the wrapper, which a restart cannot reproduce; (ORIENT) orientation typing of the checkpoint decoder: increments accumulated from the newest pair backwards, "
   "subtracted from the newest point, appended oldest-first, identical shape for X and G -- the inverse of the "
   "encoder fixed by SIB; (FIELDS) every field a restart reads is written by every result and lands in the live "
   "variable it came from; (MEM) the refill is bounded by maxcor+1 points and drops from the left, so reducing "
@@ -102,8 +102,8 @@ P("C09", ["SIGN", "ALPHA", "FREE", "RATIOFORM", "SUBFORM", "KFACT", "SHARED", "O
   "(RATIOFORM) ratios are (bound - x_c)/dHat; (SUBFORM) reduced gradient r = g + theta(x_c - x) - W M c and step "
   "dHat = -(1/theta)(rHat + (1/theta) Z^T W v) match the direct primal method up to algebraic equivalence.",
   "the solve of the reduced system itself (K, LEL^T, Sherman-Morrison-Woodbury), model decrease, descent direction", design="3/C09")
-P("C10", ["MEM", "BFGSFORM", "OFFER", "RETRY", "MATSOWN", "BIND", "MAXLEN", "INVMFORM"],
-  "(INVMFORM) the factors of the middle matrix are computed from D, L, S'S, theta by exact algebra (no floor or clamp); (MAXLEN) idem; (BIND) the memory update is given the curvature threshold eps_SY (not another epsilon), so every stored pair satisfies s.y > eps_SY y.y; (MATSOWN) the fields of the compact representation are assigned only inside bfgsmats.py, where BFGSFORM checks them; (RETRY) the retry branch cuts the stored points to one when it resets the matrices, so matrices and stored pairs agree; The four memory-discipline clauses of C10 are decided package-wide over every insertion / removal / rebinding "
+P("C10", ["MEM", "BFGSFORM", "OFFER", "RETRY", "MATSOWN", "BIND", "MAXLEN", "INVMFORM", "REBUILD"],
+  "(REBUILD) a restart turns the restored history into matrices before its first iteration; (INVMFORM) the factors of the middle matrix are computed from D, L, S'S, theta by exact algebra (no floor or clamp); (MAXLEN) idem; (BIND) the memory update is given the curvature threshold eps_SY (not another epsilon), so every stored pair satisfies s.y > eps_SY y.y; (MATSOWN) the fields of the compact representation are assigned only inside bfgsmats.py, where BFGSFORM checks them; (RETRY) the retry branch cuts the stored points to one when it resets the matrices, so matrices and stored pairs agree; The four memory-discipline clauses of C10 are decided package-wide over every insertion / removal / rebinding "
   "of the point and gradient histories (MEM): guarded by the strict curvature test on the inserted pair, "
   "reject-no-touch for history and matrices, bounded FIFO (<= maxcor pairs, oldest dropped), lock-step of X and G; "
   "(BFGSFORM) theta = y.y/s.y of the newest pair and S, Y, L, D, W, the middle-matrix factors assembled from the "
